@@ -157,6 +157,11 @@ def r2_positional_binding(ctx: Ctx) -> None:
 def r3_per_application_scope(ctx: Ctx) -> None:
     fn = _fn(ctx)
     units = scope_units(fn)
+    from .c08 import dynamic_scope_dispatch
+
+    dyn = dynamic_scope_dispatch(fn)
+    if not units and dyn:
+        raise AnalysisError(f"generate_macro_application: the scope is opened through a dynamic call `{dyn}`; not modelled")
     ctx.check(len(units) == 1 and units[0][0] == "FunctionDef", "generate_macro_application:fresh-scope", "one new scope per application (labels in the body are local to it)")
     cs = [c for c in calls_in(fn.node) if (call_name(c) or "") == "resolver.append_scope"]
     ctx.check(len(cs) == 1, "generate_macro_application:append_scope", "appends an anonymous scope")
